@@ -29,7 +29,9 @@ relevant_verdict = WP.make_relevant(ID, also=("C10:reply-to-an-earlier-request",
 
 
 def gen_run(exe, rng, tier):
-    return _gw(exe, rng, tier) + WH.run_parallel(exe, rng, 50 if tier == "quick" else 1500, WH.rewrite_history)
+    return (_gw(exe, rng, tier) + WH.run_parallel(exe, rng, 50 if tier == "quick" else 1500, WH.rewrite_history) +
+            # requests at the ends of the legal size range, through the real UDP listener
+            WH.run_parallel(exe, rng, 20 if tier == "quick" else 400, WH.udp_size_history, jobs=8))
 
 
 def gen(rng, tier):
